@@ -10,7 +10,7 @@ from vf.gen.build import build
 
 IMG = GL.Profile(max_surfs=6, shapes=['standard', 'standard', 'even_asphere'], allow_mirror=False, keep_edges=True,
                  rho_min=2.5, steep_prob=0.0, ap_types=['EPD', 'imageFNO', 'objectNA'], max_field_deg=10.0,
-                 allow_vignetting=False, max_n=2.0, zero_thickness=False, image_refracts=False, positive_power=True)
+                 allow_vignetting=False, max_n=2.0, zero_thickness=False, image_refracts=False, positive_power=True, curved_image=True)
 
 DISTS = ['hexapolar', 'uniform', 'cross', 'ring', 'line_y', 'gq', 'gq_sym']
 
@@ -99,7 +99,7 @@ class C09(Check):
                    'tolerance 1e-6 waves + 1e-11 L/lambda (rounding of path lengths of size L)']
 
     def budget(self, tier):
-        return (40, 8) if tier == 'quick' else (800, 16)
+        return (100, 8) if tier == 'quick' else (800, 16)
 
     def strategy(self, tier):
         return st.fixed_dictionaries(dict(spec=GL.lens_spec(IMG, min_surfs=2), dist=st.sampled_from(DISTS),
